@@ -280,10 +280,18 @@ def run_one_shard_inprocess(prop: str, spec: dict) -> dict:
         bad = check_import_root()
         if bad:
             rec.inconclusive_because(bad)
+        elif spec.get("interp") == "O" and not sys.flags.optimize:
+            rec.inconclusive_because("shard planned for the optimised interpreter (python -O) but PYTHONOPTIMIZE was not applied")
         else:
             mod.run_shard(spec, rec)
+            if spec.get("interp") == "O":
+                rec.count("shards_run_under_python_O")
     except BaseException as e:  # harness failure, not a property verdict
         rec.inconclusive_because(f"harness error in shard {spec.get('name')}: {type(e).__name__}: {e}\n{traceback.format_exc()[-1500:]}")
+    if spec.get("interp") == "O":
+        for v in rec.violations:
+            v["interp"] = "O"
+            v["message"] = "[python -O] " + v["message"]
     out = rec.dump()
     out["wall_s"] = time.time() - t0
     return out
@@ -317,6 +325,22 @@ def run_check(prop: str, tier: str, seed: int, jobs: int) -> int:
         s.setdefault("name", f"s{i}")
         s["tier"] = tier
         s["seed"] = seed
+    # The interpreter's configuration is part of "every configuration": a sample of the planned shards (one per kind of
+    # shard) is run a second time under `python -O` (PYTHONOPTIMIZE=1), where `assert` statements and `if __debug__:`
+    # blocks of the code under test are compiled out.  (The harness itself uses no assert statements.)
+    kinds_seen: t.Set[str] = set()
+    extra = []
+    for s in specs:
+        k = str(s.get("kind", s["name"].rsplit("-", 1)[0]))
+        if k in kinds_seen or s.get("env", {}).get("PYTHONOPTIMIZE") or len(extra) >= (8 if tier == "quick" else 16):
+            continue
+        kinds_seen.add(k)
+        o = dict(s)
+        o["interp"] = "O"
+        o["env"] = dict(s.get("env") or {}, PYTHONOPTIMIZE="1")
+        extra.append(o)
+    if not getattr(mod, "NO_OPTIMIZED_SHARDS", False):
+        specs = specs + extra
     agg = Aggregate()
     timeout = float(os.environ.get("VF_SHARD_TIMEOUT", getattr(mod, "SHARD_TIMEOUT", {}).get(tier, 900 if tier == "quick" else 7200)))
     with concurrent.futures.ThreadPoolExecutor(max_workers=jobs) as ex:
@@ -429,6 +453,10 @@ def run_replay(prop: str, path: str) -> int:
     mod = load_prop(prop)
     with open(path if os.path.isabs(path) else os.path.join(VERIF_ROOT, path)) as f:
         body = json.load(f)
+    if body.get("interp") == "O" and not sys.flags.optimize:
+        # the violation was observed under `python -O`: replay it there
+        env = dict(os.environ, PYTHONOPTIMIZE="1")
+        return subprocess.run([sys.executable, "-X", "faulthandler", "-m", "vf.core.main", prop, "--replay", path], env=env, cwd=VERIF_ROOT).returncode
     rec = Recorder(prop, "replay")
     bad = check_import_root()
     if bad:
